@@ -89,6 +89,13 @@ pub trait Ingredient: Any + fmt::Debug + Send + Sync {
         unreachable!("only tracked struct ingredients can have stale outputs")
     }
 
+    /// Verification hook (`--cfg salsa_verif`): raise the generation of every id on the free list
+    /// to `generation` (tracked-struct ingredients only; see `tracked_struct.rs`).
+    #[cfg(salsa_verif)]
+    fn verif_age_free_list(&self, generation: u32) {
+        let _ = generation;
+    }
+
     /// Returns the [`IngredientIndex`] of this ingredient.
     fn ingredient_index(&self) -> IngredientIndex;
 
